@@ -316,6 +316,60 @@ def generate_ctl(repo: Path) -> str:
             + CTL_TIE + "\nend Pamiq.GenCtl\n")
 
 
+TSCHED_TIE = r'''def ofSched (s : Sched.TSched) : TC := { interval := s.interval, previous_available_time := s.prev }
+
+/-- **`update()` decides once**: the callbacks run and the interval restarts iff the *first* reading is more than
+the interval after the previous firing; the restart takes a second reading; nothing else is read - the repaired
+form of finding F7 (`Sched.TSched.update true`). -/
+theorem update_is_model (s : Sched.TSched) (r1 r2 r3 : Rat) :
+    (update.run (ofSched s, [r1, r2])).map (fun x => (x.2.1.previous_available_time, x.2.1.interval, x.2.1.log, x.2.2.length)) =
+      some ((s.update true r1 r2 r3).st.prev, (s.update true r1 r2 r3).st.interval,
+            (if (s.update true r1 r2 r3).fired then ["run callbacks"] else []), 2 - (s.update true r1 r2 r3).reads) := by
+  by_cases h : s.due r1 = true <;>
+    simp_all [update, is_available, getS, modifyS, rd, ofSched, Sched.TSched.update, Sched.TSched.due, StateT.run, bind, StateT.bind,
+      get, getThe, MonadStateOf.get, StateT.get, pure, StateT.pure, set, StateT.set, modify, modifyGet,
+      MonadStateOf.modifyGet, StateT.modifyGet, failure, StateT.failure, Alternative.failure]
+'''
+
+SSCHED_TIE = r'''def ofSched (s : Sched.SSched) : TC := { interval := (s.interval : Rat), steps_since_last_call := (s.steps : Rat) }
+
+/-- **The step scheduler counts the update, runs the callbacks when the interval is reached and then starts
+counting again** (`Sched.SSched.update`). -/
+theorem update_is_model (s : Sched.SSched) :
+    (update.run (ofSched s, [])).map (fun x => (x.2.1.steps_since_last_call, x.2.1.interval, x.2.1.log)) =
+      some (((s.update.st.steps : Nat) : Rat), ((s.update.st.interval : Nat) : Rat),
+            (if s.update.fired then ["run callbacks"] else [])) := by
+  have hc : ((s.steps : Rat) + 1 ≥ (s.interval : Rat)) ↔ (s.steps + 1 ≥ s.interval) := by
+    rw [ge_iff_le, ge_iff_le, ← Rat.natCast_le_natCast]; simp
+  by_cases h : s.steps + 1 ≥ s.interval
+  · simp_all [update, super_update, is_available, getS, modifyS, ofSched, Sched.SSched.update, Sched.SSched.due, StateT.run,
+      bind, StateT.bind, get, getThe, MonadStateOf.get, StateT.get, pure, StateT.pure, set, StateT.set, modify,
+      modifyGet, MonadStateOf.modifyGet, StateT.modifyGet]
+  · have h' : ¬ (s.interval ≤ s.steps + 1) := h
+    simp_all [update, super_update, is_available, getS, modifyS, ofSched, Sched.SSched.update, Sched.SSched.due, StateT.run,
+      bind, StateT.bind, get, getThe, MonadStateOf.get, StateT.get, pure, StateT.pure, set, StateT.set, modify,
+      modifyGet, MonadStateOf.modifyGet, StateT.modifyGet]
+    have hn : ¬ (s.interval ≤ s.steps + 1) := by omega
+    simp [hn]
+'''
+
+
+def generate_tsched(repo: Path) -> str:
+    import translate_class as TCm
+    c = TCm.ClassTr(repo, "utils/schedulers.py", "TimeIntervalScheduler", skip_fields=())
+    c.log_writes = True
+    return ("import Pamiq.Model.Sched\nnamespace Pamiq.GenTSched\nopen Pamiq\n\n" + c.generate(["is_available", "update"])
+            + "\n" + TSCHED_TIE + "\nend Pamiq.GenTSched\n")
+
+
+def generate_ssched(repo: Path) -> str:
+    import translate_class as TCm
+    c = TCm.ClassTr(repo, "utils/schedulers.py", "StepIntervalScheduler", skip_fields=())
+    c.log_writes = True
+    return ("import Pamiq.Model.Sched\nnamespace Pamiq.GenSSched\nopen Pamiq\n\n" + c.generate(["is_available", "update"])
+            + "\n" + SSCHED_TIE + "\nend Pamiq.GenSSched\n")
+
+
 def generate_class(repo: Path) -> str:
     """`TimeController` as a Lean state machine + the theorems tying every method to `Pamiq.Clock`."""
     import translate_class as TCm
@@ -326,7 +380,9 @@ def generate_class(repo: Path) -> str:
 
 def check_class(res: SuiteResult, repo: Path, which: str = "TimeController") -> None:
     gen, ns, model, nmeth = {"TimeController": (generate_class, "GenTC", "Pamiq.Clock", len(CLASS_METHODS)),
-                             "ThreadController": (generate_ctl, "GenCtl", "Pamiq.Proto", len(CTL_METHODS))}[which]
+                             "ThreadController": (generate_ctl, "GenCtl", "Pamiq.Proto", len(CTL_METHODS)),
+                             "TimeIntervalScheduler": (generate_tsched, "GenTSched", "Pamiq.Sched", 2),
+                             "StepIntervalScheduler": (generate_ssched, "GenSSched", "Pamiq.Sched", 3)}[which]
     try:
         text = gen(repo)
     except T.Untranslatable as e:
@@ -419,6 +475,9 @@ def suite_for(*props: str):
             check_class(res, Path(REPO), "TimeController")
         if "C02" in props:
             check_class(res, Path(REPO), "ThreadController")
+        if "C15" in props:
+            check_class(res, Path(REPO), "TimeIntervalScheduler")
+            check_class(res, Path(REPO), "StepIntervalScheduler")
         text, parts, done, skipped = generate(Path(REPO), props)
         for fn, why in skipped:
             res.evaluations += 1
@@ -479,6 +538,11 @@ if __name__ == "__main__":
         out3.write_text("/- GENERATED by harness/gentie.py (translate_class.py) from /repo's thread_control.py (reference "
                         "copy of what every C02 run re-creates and re-checks; do not edit). -/\n" + generate_ctl(Path(REPO)))
         print("written", out3)
+        out4 = Path(LEAN_DIR) / "Pamiq" / "Gen" / "SchedulersTie.lean"
+        both = generate_tsched(Path(REPO)) + "\n" + generate_ssched(Path(REPO)).replace("import Pamiq.Model.Sched\n", "")
+        out4.write_text("/- GENERATED by harness/gentie.py (translate_class.py) from /repo's utils/schedulers.py (reference "
+                        "copy of what every C15 run re-creates and re-checks; do not edit). -/\n" + both)
+        print("written", out4)
         out = Path(LEAN_DIR) / "Pamiq" / "Gen" / "DecisionsTie.lean"
         out.parent.mkdir(exist_ok=True)
         out.write_text("/- GENERATED by harness/gentie.py from /repo's source (reference copy of what every run "
